@@ -32,6 +32,13 @@ def handle (cmd : String) (args : List Sexp) : Option String :=
   | "bits.f64FromBytes", [a] => do
       let l ← a.nats?
       if l.length = 8 && l.all (· < 256) then pure (toString (RbModel.Bits.bytesToF64 l)) else none
+  | "bits.cvd", [a] => do
+      let l ← a.nats?
+      if l.length = 8 && l.all (· < 256) then
+        pure (match RbModel.Bits.cvd l with
+          | some w => s!"(ok {w})"
+          | none => "overflow")
+      else none
   | "bits.f64Fields", [w] => do
       let w ← w.nat?
       if w < 2 ^ 64 then
